@@ -15,6 +15,29 @@ use verif_harness::*;
 
 /// known-finding class: decided by the input alone (the weight type)
 const KF_UNSIGNED: &str = "arcswap-unsigned-weights";
+/// known-finding class, decided by the input alone: f64 vertex weights with
+/// `4 * thread_count * max(cap, total weight) + thread_count >= 2^53` (thread_count = chunks of
+/// work_share, cap = max_part_weight as arc_swap computes it): only there can the per-thread budget
+/// `pw + (max - pw) / thread_count`, rounded to a binary64 number, exceed the exact share
+const KF_F64: &str = "arcswap-f64-budget-rounding";
+
+/// weights `integer * f` whose sums are all exact in binary64
+fn is_pow2_scale(f: f64) -> bool {
+    f == 1.0 || f == 0.5 || f == 0.25 || f == 0.125
+}
+
+/// known_findings.json (never written at run time) has an open entry of this class
+fn kf_open(out: &str, class: &str) -> bool {
+    std::fs::read_to_string(format!("{}/../../../known_findings.json", out))
+        .map(|t| {
+            t.match_indices(class).any(|(i, _)| {
+                let lo = t[..i].rfind('{').unwrap_or(0);
+                let hi = t[i..].find('}').map(|x| x + i).unwrap_or(t.len());
+                t[lo..hi].contains("\"open\"")
+            })
+        })
+        .unwrap_or(false)
+}
 
 // ------------------------------------------------------------------ graph
 
@@ -700,6 +723,146 @@ fn gen_budget_case(r: &mut Rng) -> (Case, bool) {
     (gen_case(r), false)
 }
 
+/// the class of KF_F64, from the input alone
+fn f64_budget_class(c: &Case) -> bool {
+    let f = match c.fscale {
+        Some(f) => f,
+        None => return false,
+    };
+    let n = c.p0.len();
+    let kk = usize::max(2, 1 + *c.p0.iter().max().unwrap());
+    let w: Vec<f64> = c.vw.iter().map(|x| *x as f64 * f).collect();
+    let mut loads = vec![0f64; kk];
+    for i in 0..n {
+        loads[c.p0[i]] += w[i];
+    }
+    let total: f64 = loads.iter().sum();
+    let cap = match c.mi {
+        None => loads.iter().cloned().fold(f64::MIN, f64::max),
+        Some(x) => {
+            let ideal = total / kk as f64;
+            ideal + x * ideal
+        }
+    };
+    let tc = work_share(n, c.threads).1 as f64;
+    4.0 * tc * f64::max(cap.abs(), total) + tc >= 9007199254740992.0
+}
+
+/// f64 weights at magnitude 2^52 (open known finding KF_F64): two chunks, one mover of weight 2 per
+/// chunk tied to an anchor of the target part; the target sits 3 below the cap, each budget
+/// x + 1.5 is rounded to x + 2 and both movers get in.
+fn gen_f64big_case(r: &mut Rng) -> Case {
+    let x: i64 = (1i64 << 52) + 2 * r.range(0, 1000);
+    let mut g = AdjGraph::new(5);
+    g.edge(0, 1, r.range(1, 2));
+    g.edge(3, 4, r.range(1, 2));
+    Case {
+        family: "f64big".to_string(),
+        g,
+        vw: vec![2, x / 2, x - 1, 2, x / 2],
+        p0: vec![0, 1, 0, 0, 1],
+        threads: 2,
+        mi: None,
+        policy: match r.below(3) {
+            0 => Policy::Uniform,
+            1 => Policy::RoundRobin,
+            _ => Policy::Preempt(vec![]),
+        },
+        sseed: r.next(),
+        csr: false,
+        unsigned: false,
+        fscale: Some(1.0),
+    }
+}
+
+/// Vertices of high degree (30..70, in particular 31..34 and 63..65): stars, wheels and two-hub
+/// graphs with random parts and edge weights, a loose cap, 1..4 workers.  The gain of the hub
+/// depends on every one of its neighbours.
+fn gen_highdeg_case(r: &mut Rng) -> Case {
+    let d = *r.pick(&[30usize, 31, 32, 33, 33, 33, 33, 33, 33, 34, 34, 40, 48, 63, 64, 65, 65, 65, 70]);
+    let k = r.range(2, 3) as usize;
+    let shape = r.below(10);
+    let (name, g, n) = if shape < 6 {
+        // star: hub 0 with d leaves
+        let n = d + 1;
+        let mut g = AdjGraph::new(n);
+        for i in 1..n {
+            g.edge(0, i, r.range(1, 3));
+        }
+        ("star", g, n)
+    } else if shape < 9 || d > 34 {
+        // wheel: hub 0 with d rim vertices on a cycle
+        let n = d + 1;
+        let mut g = AdjGraph::new(n);
+        for i in 1..n {
+            g.edge(0, i, r.range(1, 3));
+        }
+        for i in 1..n {
+            let j = if i + 1 < n { i + 1 } else { 1 };
+            g.edge(i, j, 1);
+        }
+        ("wheel", g, n)
+    } else {
+        // two hubs 0 and 1 joined by an edge, every other vertex tied to both: both hubs have degree d
+        let n = d + 1;
+        let mut g = AdjGraph::new(n);
+        g.edge(0, 1, r.range(1, 2));
+        for i in 2..n {
+            g.edge(0, i, r.range(1, 3));
+            g.edge(1, i, r.range(1, 3));
+        }
+        ("twohubs", g, n)
+    };
+    let mut g = g;
+    for row in g.rows.iter_mut() {
+        row.sort();
+    }
+    let kk = k;
+    // the hub's part is 0; the others are split almost evenly so that single neighbours decide the sign
+    let mut p0: Vec<usize> = (0..n).map(|i| if i == 0 { 0 } else { r.below(kk as u64) as usize }).collect();
+    if !p0.contains(&(kk - 1)) {
+        p0[n - 1] = kk - 1;
+    }
+    if name != "twohubs" && r.chance(2, 3) {
+        // constructed: the LAST neighbour of the hub decides.  Two parts; the last neighbour is in
+        // the hub's part with a heavy edge, the others lean towards part 1 by less than that edge:
+        // the hub's true gain is <= 0, but > 0 for anyone who overlooks its last neighbour
+        let others = d - 1;
+        let a = (others + 2) / 2 + (others % 2); // in part 1
+        for i in 1..n {
+            p0[i] = if i < n - 1 && i <= a { 1 } else { 0 };
+        }
+        for (j, e) in g.rows[0].iter_mut().enumerate() {
+            e.1 = if j + 1 == d { 3 } else { 1 };
+        }
+        for i in 1..n {
+            for e in g.rows[i].iter_mut() {
+                if e.0 == 0 {
+                    e.1 = if i == n - 1 { 3 } else { 1 };
+                }
+            }
+        }
+    }
+    Case {
+        family: format!("highdeg_{}", name),
+        g,
+        vw: (0..n).map(|_| r.range(1, 3)).collect(),
+        p0,
+        threads: r.range(1, 4) as usize,
+        mi: Some(*r.pick(&[3.0, 8.0])),
+        policy: match r.below(4) {
+            0 => Policy::Uniform,
+            1 => Policy::RoundRobin,
+            2 => Policy::Adversarial,
+            _ => Policy::Bursts,
+        },
+        sseed: r.next(),
+        csr: r.chance(1, 2),
+        unsigned: false,
+        fscale: None,
+    }
+}
+
 fn gen_case(r: &mut Rng) -> Case {
     let (family, g) = gen_graph(r);
     let n = g.rows.len();
@@ -929,19 +1092,9 @@ fn main() {
     // The unsigned-weights stream exhibits a known finding (the subtraction `max_part_weight - pw`
     // underflows for a part above the cap); it runs when known_findings.json (never written at
     // run time) has an open entry of that class, or when VERIF_C05_UNSIGNED=1.
-    let unsigned_stream = std::env::var("VERIF_C05_UNSIGNED").map(|v| v == "1").unwrap_or(false)
-        || std::fs::read_to_string(format!("{}/../../../known_findings.json", a.out))
-            .map(|t| {
-                t.lines().any(|l| l.contains(KF_UNSIGNED) && l.contains("\"open\""))
-                    || (t.contains(KF_UNSIGNED) && {
-                        // entry spread over several lines
-                        let i = t.find(KF_UNSIGNED).unwrap();
-                        let lo = t[..i].rfind('{').unwrap_or(0);
-                        let hi = t[i..].find('}').map(|x| x + i).unwrap_or(t.len());
-                        t[lo..hi].contains("\"open\"")
-                    })
-            })
-            .unwrap_or(false);
+    let unsigned_stream = std::env::var("VERIF_C05_UNSIGNED").map(|v| v == "1").unwrap_or(false) || kf_open(&a.out, KF_UNSIGNED);
+    // f64 weights at magnitude 2^52: the rounded per-thread budget over-allocates (open known finding)
+    let f64big_stream = std::env::var("VERIF_C05_F64BIG").map(|v| v == "1").unwrap_or(false) || kf_open(&a.out, KF_F64);
     // plan: systematic sweeps over preemption points first, random cases after
     let thorough = a.tier == "thorough";
     let mut sweep: Vec<(usize, Vec<usize>)> = Vec::new(); // (base, preemption points)
@@ -1019,12 +1172,57 @@ fn main() {
                     c.mi = Some(8.0);
                 }
                 c.family = format!("unsigned2_{}", c.family);
+            } else if idx % 10 == 9 {
+                // f64 weights with EXACT sums (integers times 1, 1/2, 1/4, 1/8): replayed through the f64
+                // instance of the machine; the base case comes from any of the families
+                c = match r.below(4) {
+                    0 => gen_cap_case(&mut r, CapFam::Weightless).0,
+                    1 => gen_cap_case(&mut r, CapFam::Beyond).0,
+                    2 => gen_budget_case(&mut r).0,
+                    _ => c,
+                };
+                c.fscale = Some(*r.pick(&[1.0, 0.5, 0.25, 0.125]));
+                c.csr = false;
+                c.family = format!("f64x_{}", c.family);
             } else if idx % 10 == 7 {
                 // f64 weights (the library's own tests use them): non-representable fractions
                 c.fscale = Some(*r.pick(&[0.1, 0.3, 1.0 / 3.0, 1e-3, 2.5]));
                 c.csr = false;
                 c.family = format!("f64_{}", c.family);
-            } else if unsigned_stream && idx % 20 == 19 {
+            } else if idx % 100 == 72 {
+                c = gen_highdeg_case(&mut r);
+            } else if f64big_stream && idx % 50 == 31 {
+                c = gen_f64big_case(&mut r);
+            } else if idx % 25 == 13 {
+                // i64 totals of 2^53 and more: a heavy vertex next to a light one, one worker, cap = None;
+                // the headroom of the light part is about 2^b (a share computed through f64 rounds it)
+                let b = r.range(53, 61) as u32;
+                let ulp = 1i64 << (b - 52);
+                let (heavy, light) = if r.chance(1, 3) {
+                    ((1i64 << b) + r.range(1, 4 * ulp), r.range(1, 3))
+                } else if b == 53 {
+                    // tie, rounds to the even mantissa: heavy - 1 -> heavy
+                    ((1i64 << b) + 4 * r.range(0, 1000), 1)
+                } else {
+                    // heavy is a binary64 number and light is below half an ulp: heavy - light -> heavy
+                    ((1i64 << b) + ulp * r.range(0, 1000), r.range(1, ulp / 2 - 1))
+                };
+                let mut g = AdjGraph::new(2);
+                g.edge(0, 1, 1);
+                c = Case {
+                    family: "big_i64".to_string(),
+                    g,
+                    vw: vec![heavy, light],
+                    p0: vec![0, 1],
+                    threads: 1,
+                    mi: None,
+                    policy: Policy::Uniform,
+                    sseed: r.next(),
+                    csr: false,
+                    unsigned: false,
+                    fscale: None,
+                };
+            } else if unsigned_stream && idx % 20 == 18 {
                 // known-finding stream: unsigned weights, a tight cap, an unbalanced input
                 c.unsigned = true;
                 c.csr = false;
@@ -1124,21 +1322,33 @@ fn main() {
         let coq = format!(
             "mk05 {} {} {} {} {} {} {} {} {}",
             coq_rows(&c.g),
-            coq_zlist(c.vw.iter().map(|x| *x as i128)),
+            match c.fscale {
+                // exact-sum f64 weights travel as bit patterns
+                Some(f) if is_pow2_scale(f) => coq_zlist(c.vw.iter().map(|x| (*x as f64 * f).to_bits() as i128)),
+                _ => coq_zlist(c.vw.iter().map(|x| *x as i128)),
+            },
             coq_natlist(c.p0.iter().cloned()),
             c.threads,
             mi_coq,
             coq_nlist(tr.iter().map(|x| *x as u128)),
             impl_coq,
             md_coq,
-            if c.fscale.is_some() { "1%N" } else { "0%N" }
+            match c.fscale {
+                Some(f) if is_pow2_scale(f) => "2%N",
+                Some(_) => "1%N",
+                None => "0%N",
+            }
         );
         let json = format!(
             "{{{}\"n\":{},\"rows\":{},\"vertex_weights\":{},\"p0\":{},\"threads\":{},\"max_imbalance\":{},\"topology\":\"{}\",\"policy\":\"{:?}\",\"schedule_seed\":{},\"passes\":{},\"choices\":{},\"events\":{},\"trace_enc\":{},\"impl\":{}}}",
             if c.unsigned {
                 format!("\"kf\":\"{}\",\"weight_type\":\"u64\",", KF_UNSIGNED)
             } else if let Some(f) = c.fscale {
-                format!("\"weight_type\":\"f64\",\"weight_scale\":{},", f)
+                if f64_budget_class(&c) {
+                    format!("\"kf\":\"{}\",\"weight_type\":\"f64\",\"weight_scale\":{},", KF_F64, f)
+                } else {
+                    format!("\"weight_type\":\"f64\",\"weight_scale\":{},", f)
+                }
             } else {
                 "\"weight_type\":\"i64\",".to_string()
             },
